@@ -86,9 +86,13 @@ def gen(t, tier):
     # waits for it), or no time at all (a request can be overtaken between its freshness check and its lock)
     sc['up_latency'] = t.pick([0.001, 0.001, 0.0])
     sc['policy'] = t.pick([['sticky', 0.3], ['sticky', 0.3], ['sticky', 0.05], ['random']])
+    # a tiled upstream: the tiles of a meta tile are fetched one by one and stored together (bulk_meta_tiles)
+    sc['bulk'] = meta != [1, 1] and not sc['via_loader'] and not sc['overlay'] and bool(t.chance(0.3))
+    if sc['bulk']:
+        sc['meta_buffer'] = 0
     nops = t.randint(6, 18 if tier == 'quick' else 30)
     for _ in range(nops):
-        k = t.weighted([('softfail', 2 if sc['overlay'] else 0), ('req', 8), ('adv', 5), ('thr', 3), ('touch', 1), ('upfail', 1), ('seed', 1), ('req2', 3),
+        k = t.weighted([('drop', 2), ('softfail', 2 if sc['overlay'] else 0), ('req', 8), ('adv', 5), ('thr', 3), ('touch', 1), ('upfail', 1), ('seed', 1), ('req2', 3),
                         ('age', 2 if meta != [1, 1] else 1), ('storefail', 1 if backend['type'] == 'file' else 0)])
         if k == 'req2':
             # two (or three) concurrent requests for the same or neighbouring tiles
@@ -129,6 +133,9 @@ def gen(t, tier):
             sc['ops'].append(['age', t.pick(pool), t.pick([3, 60, 3600, 86400, 30 * 86400])])
         elif k == 'upfail':
             sc['ops'].append(['upfail', bool(t.choice(2))])
+        elif k == 'drop':
+            # one stored tile is gone (a cleanup removed it, an operator deleted it): its meta tile is only partly there
+            sc['ops'].append(['drop', t.pick(pool)])
         elif k == 'storefail':
             # the next request that has to store a tile meets a disk error while doing so (the upstream answered fine)
             sc['ops'].append(['storefail', t.pick(['EIO', 'ENOSPC']), t.choice(3)])
@@ -278,12 +285,12 @@ def _run(sc, tape):
             return tmx
         cache = C.make_cache(sc['backend'], cdir)
         locker = TileLocker('/simfs/locks', 60, cache.lock_cache_id)
-        src = U.SimSource(w, shared, image_opts=image_opts)
+        src = U.SimSource(w, shared, supports_meta_tiles=not sc.get('bulk'), image_opts=image_opts)
         sources = [src]
         if sc.get('overlay'):
             sources.append(Overlay())
         return TileManager(grid, cache, sources, 'png', locker, image_opts=image_opts,
-                           meta_size=sc['meta_size'], meta_buffer=sc['meta_buffer'])
+                           meta_size=sc['meta_size'], meta_buffer=sc['meta_buffer'], bulk_meta_tiles=bool(sc.get('bulk')))
 
     def stored(coord, cache):
         """independent read of (generation, timestamp) of a stored tile; None if absent"""
@@ -438,6 +445,10 @@ def _run(sc, tape):
                     storefail.update({'armed': True, 'errno': op[1], 'skip': op[2]})
             elif k == 'age':
                 age_tile(op[1], op[2], tm.cache)
+            elif k == 'drop':
+                storefail['armed'] = False
+                tm.cache.remove_tile(Tile(tuple(op[1])))
+                probes['tiles_dropped'] = probes.get('tiles_dropped', 0) + 1
             elif k == 'req':
                 _request(tm, [tuple(c) for c in op[1]], what, pool)
             elif k == 'req2':
